@@ -341,8 +341,40 @@ def check(case, obs):
 # the shipped example
 # ----------------------------------------------------------------------------------------------
 
+def curated_runs():
+    """Deterministic workbooks for combinations the random search reaches rarely within the quick budget."""
+    lad = ', '.join(str(v) for v in xlgen.LADDER)
+    i1 = dict(id='I1', fsc='FSC-H', ssc='SSC-H', fl=['FL1-H', 'FL2-H', 'FL3-H'], time='Time')
+
+    def cells(seed, res=1024, dt='I'):
+        return dict(kind='cells', instrument='I1', seed=seed, n=600, datatype=dt, res=res)
+
+    def srow(i, f, units, **kw):
+        r = dict(id='S%d' % i, instrument='I1', beads='B1', file=f, gate_fraction=0.5, units=units, strain='wt', fault=None)
+        r.update(kw)
+        return r
+    b1 = dict(id='B1', instrument='I1', file='beads1.fcs', gate_fraction=0.3, clustering=['FL1-H'], mef={'FL1-H': lad}, fault=None)
+    out = []
+    # samples with different resolutions, the lowest one last, histogram sheet on
+    out.append(dict(arm='run', instruments=[i1], beads=[b1],
+                    files={'beads1.fcs': dict(kind='beads', instrument='I1', seed=3), 'c1.fcs': cells(4, 1024), 'c2.fcs': cells(5, 4096),
+                           'c3.fcs': cells(6, 256), 'c4.fcs': cells(7, 1024, 'F')},
+                    samples=[srow(1, 'c1.fcs', {'FL1-H': 'MEF', 'FL2-H': 'Channel'}), srow(2, 'c2.fcs', {'FL1-H': 'RFI'}),
+                             srow(3, 'c4.fcs', {'FL2-H': 'a.u.'}, beads=None), srow(4, 'c3.fcs', {'FL1-H': 'Channel', 'FL3-H': 'rfi'})],
+                    np_seed=3, plot=False, hist=True, default_out=True))
+    # every row faulty except one; two clustering channels; plots on
+    out.append(dict(arm='run', instruments=[i1],
+                    beads=[dict(b1, clustering=['FL1-H', 'FL2-H']), dict(b1, id='B2', file='absent_beads.fcs', fault='missing')],
+                    files={'beads1.fcs': dict(kind='beads', instrument='I1', seed=8), 'c1.fcs': cells(9)},
+                    samples=[srow(1, 'absent.fcs', {'FL1-H': 'RFI'}, fault='missing'), srow(2, 'c1.fcs', {'FL1-H': 'MEF'}, beads='B2'),
+                             srow(3, 'c1.fcs', {'FL1-H': 'MEF', 'FL3-H': 'au'}), srow(4, 'c1.fcs', {'FL1-H': 'furlongs'}, fault='units'),
+                             srow(5, 'c1.fcs', {'FL1-H': 'rfi'}, gate_fraction=1.5, fault='gate_fraction')],
+                    np_seed=4, plot=True, hist=False, default_out=False))
+    return out
+
+
 def exhaustive_jobs(tier):
-    return [dict(arm='example', plot=(tier == 'thorough'), hist=True)]
+    return [dict(arm='example', plot=(tier == 'thorough'), hist=True)] + curated_runs()
 
 
 def check_example(case, obs):
@@ -386,8 +418,9 @@ def check_example(case, obs):
 def run_job(job):
     obs = Obs()
     try:
-        check_example(job, obs)
+        check(job, obs)
     except Exception as e:
-        obs.failures.append(('crash', 'shipped example: %s: %s' % (type(e).__name__, e)))
-    return dict(evaluations=1, nontrivial=1, failures=[(t, m, job) for t, m in obs.failures[:5]], labels={'shipped_example': 1},
+        obs.failures.append(('crash', '%s: %s: %s' % (job['arm'], type(e).__name__, e)))
+    return dict(evaluations=1, nontrivial=1, failures=[(t, m, job) for t, m in obs.failures[:5]],
+                labels={'shipped_example' if job['arm'] == 'example' else 'curated_run': 1},
                 claims=dict(obs.claims), samples=[job], complete=True)
